@@ -23,10 +23,46 @@ def _apply(src, m):
     return src[:idx] + new + src[idx + len(old):]
 
 
+def _reformat_overlay(root):
+    """Every analysed source file re-rendered by ast.unparse: comments dropped, layout and quoting normalised.
+    A check that keys anything on text position or formatting raises a false alarm on this twin."""
+    import ast
+    from ..core.loader import EXCLUDED_TOP
+    overlay = {}
+    for dirpath, dirnames, filenames in os.walk(root):
+        rel_dir = os.path.relpath(dirpath, root)
+        parts = [] if rel_dir == "." else rel_dir.split(os.sep)
+        if parts and parts[0] in EXCLUDED_TOP:
+            dirnames[:] = []
+            continue
+        for fn in filenames:
+            if fn.endswith(".py"):
+                path = os.path.join(dirpath, fn)
+                try:
+                    with open(path, encoding="utf-8") as f:
+                        src = f.read()
+                    import warnings
+                    with warnings.catch_warnings():
+                        warnings.simplefilter("ignore")
+                        overlay[os.path.relpath(path, root)] = ast.unparse(ast.parse(src)) + "\n"
+                except Exception:
+                    pass
+    return overlay
+
+
 def _one(args):
     prop, root, m = args
     from ..runner import analyse, decide
     overlay = {}
+    if m.get("reformat_all"):
+        import warnings
+        warnings.simplefilter("ignore")
+        res = analyse(prop, root, tier="quick", overlay=_reformat_overlay(root))
+        if res.error:
+            return (m["name"], "twin-noisy", "ANALYSIS-ERROR " + res.error[:300])
+        decide(res)
+        keys = [f.key for f in res.violations]
+        return (m["name"], "twin-silent", "") if not keys else (m["name"], "twin-noisy", "; ".join(keys[:4]))
     edits = m.get("edits") or [m]
     for e in edits:
         path = os.path.join(root, e["file"])
@@ -66,7 +102,7 @@ def _one(args):
 
 def run_selftest(prop, root, jobs=16):
     from .catalog import MUTANTS
-    ms = [m for m in MUTANTS if m["prop"] == prop]
+    ms = [m for m in MUTANTS if m["prop"] == prop] + [dict(prop=prop, name="twin-whole-tree-reformatted", twin=True, reformat_all=True)]
     out = {"applied": 0, "detected": 0, "twins": 0, "silent_twins": 0, "stale": 0, "failures": [], "mutants": []}
     if not ms:
         return out
